@@ -84,6 +84,8 @@ StepOK(tx, t, o, ntx, nrows) ==
     /\ (o <= Len(tx) /\ o <= Len(t) /\ Suffix(tx, o) = Prefix(t, o)) => IsSuffix(t, ntx)   \* ... in full when the overlap is exact
     /\ nrows = Len(ntx)                                                     \* one logits row per merged character
     /\ o = 0 => ntx = tx \o t                                               \* no overlap / empty part: concatenated unchanged
+    \* parts that cannot share an overlap (no symbol in common) are concatenated unchanged, whatever overlap was "detected"
+    /\ ({tx[i] : i \in 1..Len(tx)} \cap {t[i] : i \in 1..Len(t)} = {}) => ntx = tx \o t
 
 MergeOK == [][k' = k + 1 => StepOK(txt, parts[k'], overlaps'[k], txt', Len(rows'))]_vars
 
